@@ -42,18 +42,41 @@ def make_cases(rng, tier, n):
         s_commit, s_checkout = rng.choice("lc"), rng.choice("lc")
         keep = [b"workdir", b"workdir/inner"] if c.get("cwd") else []
         variant = rng.choice(["clone", "clone", "rm", "move"])
+        checkout_targets = []
+        if not commit_targets and rng.random() < 0.35:
+            # every stage named explicitly on the command line (argument paths are re-based on the project root)
+            commit_targets = [sp for sp, st in c["stages"]]
+            checkout_targets = list(commit_targets)
+            stats["explicit_targets"] = stats.get("explicit_targets", 0) + 1
         ops = [("commit", s_commit, commit_targets)]
+        if fam == "roundtrip" and rng.random() < 0.3:
+            # a second generation of the tree: a tracked file is renamed over its sibling (after a link commit both are links
+            # into the cache), sometimes a new file appears; the tree as it is then is committed and must come back
+            sib = {}
+            for e in c["init"]:
+                if e[0] == "file":
+                    sib.setdefault(e[1].rsplit(b"/", 1)[0] if b"/" in e[1] else b"", []).append(e[1])
+            dirs_ = [d_ for d_, fs in sib.items() if len(fs) >= 2 and any(d_ == a[0] or d_.startswith(a[0] + b"/")
+                                                                        for a in s1eval.artifacts(c) if a[1] == "d")]
+            if dirs_:
+                d_ = rng.choice(sorted(dirs_))
+                a_, b_ = rng.sample(sorted(sib[d_]), 2)
+                ops.append(("mv", a_, b_))
+                if rng.random() < 0.4:
+                    ops.append(("write", d_ + b"/second-gen.bin", "g:%d:%d" % (rng.randrange(1000), rng.choice([0, 7, 65537]))))
+                ops.append(("commit", rng.choice("lc"), commit_targets))
+                stats["second_generation"] = stats.get("second_generation", 0) + 1
         if rng.random() < 0.5:
             ops.append(("status", []))
         if variant == "clone":
             ops.append(("clone", keep))
         elif variant == "move":
-            ops += [("moveproj", "rel" if c["cache"] == "rel" else "abs"), ("clone", keep)]
+            ops += [("moveproj", "rel" if c["cache"] in ("rel", "sym") else "abs"), ("clone", keep)]
         else:
             for p, fl, sp in s1eval.artifacts(c):
                 if "s" not in fl:
                     ops.append(("rm", p))
-        ops.append(("checkout", s_checkout, False, []))
+        ops.append(("checkout", s_checkout, False, checkout_targets))
         ops.append(("status", []))
         c["ops"] = ops
         c["variant"] = variant
@@ -87,9 +110,17 @@ def oracle(run):
     v = []
     steps = run["steps"]
     init = run["initial"]
-    commit = steps[0] if steps else None
-    if commit is None:
+    if not steps:
         return [("harness", "no steps")]
+    # the LAST commit and the workspace it saw (second-generation cases commit twice)
+    ci = max(i for i, st in enumerate(steps) if st["op"][0] == "commit")
+    commit = steps[ci]
+    for st in steps[:ci]:
+        if st["op"][0] == "commit" and st["rc"] != 0:
+            commit = st          # an earlier commit already failed
+            ci = steps.index(st)
+            break
+    init = steps[ci - 1]["snap"] if ci > 0 else init
     unsafe = has_unsafe(case)
     if commit["rc"] != 0:
         if unsafe and any(not valid_utf8(e[1]) for e in case["init"]):
